@@ -171,6 +171,9 @@ func (j *jsonBuilder) flattenObject(value *astjson.Value, path ast.Path) ([]*ast
 			return nil, err
 		}
 		result = append(result, values...)
+	case astjson.TypeNull:
+		// A null parent has no context element in the resolve request and therefore no resolved value:
+		// there is nothing to merge into, skip it.
 	default:
 		return nil, fmt.Errorf("expected array or object, got %s", current.Type())
 	}
